@@ -973,9 +973,9 @@ struct InputFacts {
 fn input_facts(block_in: &Block) -> InputFacts {
     let mut erased = block_in.clone();
     let luau = Resolver::run(Mode::Luau, true, &mut erased);
-    let mut scratch = block_in.clone();
-    let visitor = Resolver::run(Mode::Visitor, false, &mut scratch);
-    let hannot = luau.targets_equal(&visitor);
+    // F09b / F09c are fixed: ScopeVisitor resolves binder annotations and type-function
+    // parameters the way Luau does; nothing is excused any more (Hannot is always true)
+    let hannot = true;
     let globals_used = luau.globals_used();
     InputFacts { luau, erased, hannot, globals_used }
 }
@@ -1570,11 +1570,10 @@ fn judge(prepared: Vec<Prepared>, model: &mut CachedModel, st: &mut Stats, searc
             }
             if let Some(outcome) = &run.oracle {
                 if let Some((check, what)) = &outcome.failure {
-                    let hself = model.ask(&format!("c09.hself {} {}", run.cfg.wire(), p.events_in));
+                    // F09a is fixed: nothing is excused for `self` any more (the model proves
+                    // `c09.hself` = true on every run)
                     if !p.hannot {
                         st.hist("oracle", "failed-outside-Hannot(known defect region, silent)");
-                    } else if hself != "true" {
-                        st.hist("oracle", "failed-outside-Hself(known defect region, silent)");
                     } else {
                         st.violation("oracle", check, what.clone(), case_input(&p.src, &run.cfg), true);
                     }
@@ -1616,7 +1615,7 @@ fn first_difference(real: &str, model: &str) -> String {
 }
 
 /// only the oracle, on one input; Some(check, what) when the property fails inside the claimed,
-/// proved region (Hannot and Hself hold)
+/// proved region (Hannot holds)
 fn oracle_only(src: &Src, cfg: &Cfg, model: &mut CachedModel) -> Option<(String, String)> {
     let mut block_in = src.materialize().ok()?;
     let facts = input_facts(&block_in);
@@ -1628,12 +1627,7 @@ fn oracle_only(src: &Src, cfg: &Cfg, model: &mut CachedModel) -> Option<(String,
     let outcome = oracle(&facts, block_out, cfg, true);
     let failure = outcome.failure?;
     let events_in = record_events(&mut block_in).ok()?;
-    if !wire_names_ok(&events_in) {
-        return None;
-    }
-    if model.ask(&format!("c09.hself {} {}", cfg.wire(), events_in)) != "true" {
-        return None;
-    }
+    let _ = (&events_in, &model);
     Some(failure)
 }
 
@@ -2159,6 +2153,110 @@ fn enum_e6() -> Vec<String> {
     out
 }
 
+
+/// the names `RenameProcessor` hands out with an empty avoid list, in order (own enumeration:
+/// strings over the 63-character set by length then order, without digit-leading strings and
+/// keywords), up to `limit` names
+fn generated_sequence(limit: usize) -> Vec<String> {
+    const SET: &[u8] = b"abcdefghijklmnopqrstuvwxyzABCDEFGHIJKLMNOPQRSTUVWXYZ_0123456789";
+    let mut out = Vec::with_capacity(limit);
+    let mut length = 1;
+    while out.len() < limit {
+        let mut idx = vec![0usize; length];
+        'len: loop {
+            let name: String = idx.iter().map(|i| SET[*i] as char).collect();
+            if !name.as_bytes()[0].is_ascii_digit() && !LUA_KEYWORDS.contains(&name.as_str()) {
+                out.push(name);
+                if out.len() >= limit {
+                    break 'len;
+                }
+            }
+            let mut k = length;
+            loop {
+                if k == 0 {
+                    break 'len;
+                }
+                k -= 1;
+                idx[k] += 1;
+                if idx[k] < SET.len() {
+                    break;
+                }
+                idx[k] = 0;
+            }
+        }
+        length += 1;
+    }
+    out
+}
+
+/// E7 (directed): a source-level name S that coincides with a *generated* name, declared or used
+/// inside the scope of N simultaneously live locals, N swept across the ordinal of S in the
+/// generated sequence (and hence across every length boundary reached), with references to the
+/// last four of the N locals inside the scope of S. Also generic-for loops whose variables are
+/// named like identifiers of their own iterator expressions.
+fn enum_e7(thorough: bool) -> Vec<String> {
+    let sequence = generated_sequence(3600);
+    let ordinal = |s: &str| sequence.iter().position(|n| n == s).map(|i| i + 1);
+    let mut out = Vec::new();
+    // (a) shadowing inside the iterator expressions of a generic for
+    for outer in ["", "local x = t", "local x, a = t, u", "local function x() end"] {
+        for (vars, exprs) in [("x", "x"), ("x", "x, a"), ("a, x", "x"), ("x, a", "a:f(x)"), ("a", "x(a)"), ("x", "pairs(x)"), ("k, x", "next, x, a")] {
+            for body in ["", "use(x)", "use(a, x)", "local x = a"] {
+                for tail in ["", "return x", "return a, x"] {
+                    out.push(join2(outer, &join2(&format!("for {} in {} do {} end", vars, exprs, body), tail)));
+                }
+            }
+        }
+    }
+    // (b) source names equal to generated names × N live locals around their ordinal
+    let small: &[&str] = &["_", "a", "b", "z", "A", "Z", "aa", "ab", "a_", "aZ"];
+    let large: &[&str] = &["ba", "zz", "_a", "__", "Za", "a0"];
+    let mut sources: Vec<(&str, bool)> = small.iter().map(|s| (*s, false)).collect();
+    if thorough {
+        sources.extend(large.iter().map(|s| (*s, true)));
+    }
+    for (source, big) in sources {
+        let Some(k0) = ordinal(source) else { continue };
+        let window: Vec<usize> = if big { vec![k0.saturating_sub(1), k0, k0 + 1] } else { (k0.saturating_sub(4)..=k0 + 3).collect() };
+        for n in window {
+            if n == 0 {
+                continue;
+            }
+            let mut prelude = String::new();
+            for i in 1..=n {
+                prelude.push_str(&format!("local v{} = {}\n", i, i));
+            }
+            let refs: Vec<String> = (n.saturating_sub(3).max(1)..=n).map(|i| format!("v{}", i)).collect();
+            let r = refs.join(", ");
+            let s = source;
+            let mut templates = vec![
+                format!("for {s}, item in pairs(list) do use({r}, item, {s}) end"),
+                format!("return function({s}, value) return {r}, value, {s} end"),
+                format!("local {s}, err = pcall(run) return {r}, err, {s}"),
+            ];
+            if !big {
+                templates.extend([
+                    format!("local function {s}(p) return {r}, p end return {s}({r})"),
+                    format!("function t:m({s}) return {r}, {s}, self end"),
+                    format!("return {s}, {r}"),
+                    format!("repeat local {s} = {r} until {s}"),
+                    format!("for {s} = 1, 2 do use({r}, {s}) end return {s}"),
+                    format!("do local {s} = 1 use({s}, {r}) end local w = 1 return w, {r}"),
+                ]);
+            }
+            for t in templates {
+                out.push(format!("{}{}", prelude, t));
+            }
+            if !big {
+                // S declared outside, the N locals inside
+                out.push(format!("local {s} = 0\n{}return {s}, {r}", prelude));
+                out.push(format!("local function f({s})\n{}return {s}, {r}\nend", prelude));
+            }
+        }
+    }
+    out
+}
+
 // ------------------------------------------------------------------------------------------
 // (ii) random structured programs
 // ------------------------------------------------------------------------------------------
@@ -2286,10 +2384,10 @@ impl<'r> PGen<'r> {
             }
             names.push(p);
         }
-        let mut avoid = names.clone();
-        if let Some(own) = own_name {
-            avoid.push(own.to_owned());
-        }
+        // annotations may name the parameters and the function itself (they resolve in the
+        // enclosing scope; F09b fixed)
+        let _ = own_name;
+        let avoid: Vec<String> = Vec::new();
         let mut parts: Vec<String> = Vec::new();
         for p in &names {
             let t = self.maybe_ty(&avoid);
@@ -2444,7 +2542,12 @@ impl<'r> PGen<'r> {
             23..=24 => format!("{} += {}", self.prefix(0), self.expr(0)),
             25..=31 => self.call(0),
             32..=33 => {
-                if self.types {
+                if self.types && depth == 0 && self.rng.chance(1, 3) {
+                    // type function: parameters are declared in its body (F09c fixed)
+                    let p = self.decl_name();
+                    let q = self.use_name();
+                    format!("type function TF{}({}, w)\nreturn {}, {}, w\nend", self.rng.below(3), p, p, q)
+                } else if self.types {
                     let t = self.ty(&[]);
                     format!("type T{} = {}", self.rng.below(3), t)
                 } else {
@@ -2506,9 +2609,10 @@ impl<'r> PGen<'r> {
             73..=78 => {
                 let n = 1 + self.rng.below(3);
                 let vars: Vec<String> = (0..n).map(|_| self.decl_name()).collect();
+                let typed: Vec<String> = vars.iter().map(|v| format!("{}{}", v, self.maybe_ty(&[]))).collect();
                 let values = self.exprs(1, 2, 1);
                 let body = self.block(depth + 1, vars.clone(), true, false);
-                format!("for {} in {} do\n{}\nend", vars.join(", "), values, body)
+                format!("for {} in {} do\n{}\nend", typed.join(", "), values, body)
             }
             79..=86 => {
                 let mut s = format!("if {} then\n{}", self.expr(1), self.block(depth + 1, Vec::new(), in_loop, false));
@@ -2772,6 +2876,10 @@ fn probe(src: &Src, cfg: &Cfg) -> Result<ProbeResult, String> {
 
 fn replay_known_findings(report: &mut Report) {
     for entry in report::known_findings("C09") {
+        // a fixed entry excuses nothing: its witness lives in corpus/C09 and must pass there
+        if entry["status"].as_str() == Some("fixed") {
+            continue;
+        }
         let id = entry["id"].as_str().unwrap_or("F?").to_owned();
         let witnesses: Vec<Value> = match &entry["witness"] {
             Value::Array(a) => a.clone(),
@@ -2824,7 +2932,24 @@ fn replay_input(report: &mut Report, label: &str, src: Src, cfg: Cfg, verbose: b
     }
     if let Src::SelfCapture(n) = &src {
         if *n > 300_000 {
-            return; // far outside Hself and too large for the model line protocol
+            // too large for the model line protocol: oracle only (builds a multi-million
+            // statement AST, ~15 s and ~3 GB), thorough tier or explicit replay
+            if report.is_thorough() || verbose {
+                match probe(&src, &cfg) {
+                    Ok(ProbeResult { failure: Some((check, what)), note, .. }) => report.violation(Violation {
+                        kind: "oracle".to_owned(),
+                        check,
+                        what: format!("{} ({})", clip(&what, 400), note),
+                        input: case_input(&src, &cfg),
+                        failing_input_found: true,
+                    }),
+                    Ok(_) => report.count("self_capture_witness_passes", 1),
+                    Err(e) => report.notes.push(format!("{}: self_capture witness could not run: {}", label, clip(&e, 200))),
+                }
+            } else {
+                report.notes.push(format!("{}: self_capture witness ({} locals) is replayed in the thorough tier", label, n));
+            }
+            return;
         }
     }
     run_parallel(report, label, vec![(src, std::sync::Arc::new(vec![cfg]))], true);
@@ -2861,7 +2986,7 @@ fn replay_corpus(report: &mut Report) {
 // ------------------------------------------------------------------------------------------
 
 pub fn run(report: &mut Report, replay: Option<&str>) {
-    report.rule = "programs: (i) exhaustive enumerations E1..E6 of small programs over the names x, a, self (a collides with the first generated name) crossed with include_functions × detect_globals × 3 globals lists, (ii) seeded random structured programs to nesting depth 6 with shadowing/capture/reuse patterns and Luau annotations in safe positions, (iii) stress (>64, >4000 live locals, one name declared 262k times in one scope) and keyword-like identifiers. One evaluation = one (program, configuration) through: real rule, event-stream correspondence with the Lean model, CollectGlobals and resolver correspondence, independent binding-graph oracle. Non-trivial = at least one declaration renamed AND at least one shadowing, upvalue capture or reuse of a generated name after scope exit; keyed by (input event stream, configuration).".to_owned();
+    report.rule = "programs: (i) exhaustive enumerations E1..E6 of small programs over the names x, a, self (a collides with the first generated name), E7 directed: source names equal to generated names (`_`, a, b, z, A, Z, aa, ab, a_, aZ; thorough adds ba, zz, _a, __, Za, a0) inside N live locals with N swept across the name's ordinal in the generated sequence, and for-in loops shadowing their own iterator expressions crossed with include_functions × detect_globals × 3 globals lists, (ii) seeded random structured programs to nesting depth 6 with shadowing/capture/reuse patterns and Luau annotations in safe positions, (iii) stress (>64, >4000 live locals, one name declared 262k times in one scope) and keyword-like identifiers. One evaluation = one (program, configuration) through: real rule, event-stream correspondence with the Lean model, CollectGlobals and resolver correspondence, independent binding-graph oracle. Non-trivial = at least one declaration renamed AND at least one shadowing, upvalue capture or reuse of a generated name after scope exit; keyed by (input event stream, configuration).".to_owned();
 
     if let Some(path) = replay {
         let text = std::fs::read_to_string(path).unwrap_or_default();
@@ -2894,6 +3019,7 @@ pub fn run(report: &mut Report, replay: Option<&str>) {
         ("E4 if/elseif/else bodies", enum_e4()),
         ("E5 expression forms depth<=2", enum_e5()),
         ("E6 multiple local assignment", enum_e6()),
+        ("E7 source names equal to generated names x N live locals; for-in shadowing", enum_e7(thorough)),
     ];
     let rotating: Vec<std::sync::Arc<Vec<Cfg>>> = (0..3).map(|r| std::sync::Arc::new(config_slice(&configs, r, false))).collect();
     for (name, programs) in families {
